@@ -223,11 +223,30 @@ func init() {
 		id: "C05", quick: 110 * time.Second, thor: 15 * time.Minute, depthQ: 3, depthT: 4,
 		alphabet: append(coreAlphabet()[:11], tsAlphabet()[:2]...), restart: false,
 		sigs: []string{"pit:", "vol:value:pit", "vol:balance:pit", "vol:missing:pit", "vol:unexpected:pit", "vol:duplicate:pit", "vol:order:pit", "vol:value:window", "vol:missing:window", "vol:unexpected:window", "vol:balance:window", "agg:value:pit", "agg:missing:pit", "agg:unexpected:pit", "read:", "ref:"},
+		configs: [][]lx.LedgerSpec{{{Name: "l1"}, {Name: "twin", Bucket: "twinb"}}},
 		check: func(ctx context.Context, s *lx.StepInfo, rep *lx.Report) {
 			lx.CheckPIT(ctx, s.Ctrl, s.Ref, rep)
+			// the same point-in-time reads on the ledger reached through export + import (the dates a
+			// point-in-time read depends on — timestamps, insertion dates, revert dates — travel in
+			// the logs): same reference, signatures prefixed by "pit:twin:"
+			if s.Last.Ledger != "" && s.Last.Ledger != "l1" {
+				return
+			}
+			tc, err := lx.ImportedTwin(ctx, s, "twin")
+			if err != nil {
+				rep.Add("pit:twin:import", "%v", err)
+				return
+			}
+			if tc != nil {
+				sub := &lx.Report{}
+				lx.CheckPIT(ctx, tc, s.Ref, sub)
+				for _, m := range sub.Items {
+					rep.Add("pit:twin:"+m.Sig, "imported twin: %s", m.What)
+				}
+			}
 		},
 		need: []string{"post:ok", "revert:ok"},
-		rule: "every sequence of length<=depth over back-dated/now/future creates, scripts and reverts; after each sequence, at every recorded instant (each effective timestamp, insertion date, revert date, metadata date, each also -1us and +1us) and in both date modes: GetVolumesWithBalances(PIT), GetVolumesWithBalances(OOT,PIT) for every ordered pair of recorded dates, GetVolumesWithBalances(OOT alone) for every recorded date, GetAggregatedBalances(PIT), ListAccounts(PIT, expand volumes/effectiveVolumes) and ListTransactions(PIT) == reference folds; accounts listed iff first usage <= t, transactions iff timestamp <= t, reverted flag iff revert date <= t",
+		rule: "every sequence of length<=depth over back-dated/now/future creates, scripts and reverts; after each sequence, at every recorded instant (each effective timestamp, insertion date, revert date, metadata date, each also -1us and +1us) and in both date modes: GetVolumesWithBalances(PIT), GetVolumesWithBalances(OOT,PIT) for every ordered pair of recorded dates, GetVolumesWithBalances(OOT alone) for every recorded date, GetAggregatedBalances(PIT), ListAccounts(PIT, expand volumes/effectiveVolumes) and ListTransactions(PIT) == reference folds; accounts listed iff first usage <= t, transactions iff timestamp <= t, reverted flag iff revert date <= t; the same reads with the same reference on a twin ledger (other bucket) into which the export of the history is imported",
 	})
 	registerSeq(seqCheck{
 		id: "C15", quick: 100 * time.Second, thor: 15 * time.Minute, depthQ: 3, depthT: 4,
